@@ -173,7 +173,8 @@ func c01ProbeMain(reqPath string) {
 	if err != nil || i < 0 || i >= len(ps) {
 		os.Exit(2)
 	}
-	e, bad := c01ProbeEngine(ps)
+	// this process parses nothing but the support templates and the one probe
+	e, bad := c01ProbeEngine(ps[i : i+1])
 	os.WriteFile(reqPath+".answer", []byte(c01ProbeRender(e, bad, ps[i])), 0o644)
 }
 
@@ -230,8 +231,14 @@ func runC01Probes(c Case, res *Result, dir string) {
 	type step struct{ engine, probe int }
 	for round := 0; round < rounds; round++ {
 		// two engines sharing the process; every probe is rendered on each, in one shuffled sequence, some twice
-		e0, bad0 := c01ProbeEngine(ps)
-		e1, bad1 := c01ProbeEngine(ps)
+		// the probes are parsed in another order on every engine (what a parse leaves behind is history too)
+		shuffled := func() []c01Probe {
+			q := append([]c01Probe(nil), ps...)
+			rng.Shuffle(len(q), func(a, b int) { q[a], q[b] = q[b], q[a] })
+			return q
+		}
+		e0, bad0 := c01ProbeEngine(shuffled())
+		e1, bad1 := c01ProbeEngine(shuffled())
 		var seq []step
 		for _, i := range idx {
 			seq = append(seq, step{0, i}, step{1, i})
